@@ -161,8 +161,6 @@ def oracle_split(case, lines, runner=None):
         return []          # the uninterrupted run raises: what happens after an exception is outside the statement
     r1 = kscript.Runner(case)
     got = r1.run()
-    if any(n[0] == 'until-event-failed' for n in r1.notes):
-        return []          # run(until=<an event that fails>) is outside the statement (reading decision, DESIGN section 3)
     fails = []
     # an exception other than the refusals of run(until<=now) / step() on an empty schedule is not expected either
     bad = [l for l in got if l.startswith('X ') and not l.startswith('X ValueError') and not l.startswith('X EmptySchedule')
